@@ -230,6 +230,9 @@ class PyVC(ExprMixin, CallMixin, StmtMixin, Engine):
                     allowed.append(self.class_test(self.as_ref(exc), a))
                 self.oblige(xs, "raises-only", "declared", z3.Or(allowed) if allowed else z3.BoolVal(False),
                             note="only declared exceptions escape")
+                # callers havoc only the declared `modifies` on an exceptional exit too
+                self.check_frame(self.entry_state, xs, c.modifies, env0, self.entry_state,
+                                 self.entry_state.alloc, "frame-on-raise")
                 for r in c.raises:
                     if not r.ensures:
                         continue
